@@ -322,9 +322,11 @@ fn do_enc(cx: &mut Ctx, extras: &[Extra]) {
         cx.rep.oracle_failure(
             &format!("enc-roundtrip {}", short_key(&op)),
             &format!(
-                "additional entries written by from_tree() and read back through Stream::from_read() differ at entry {first}: {} entries added, {} read",
+                "additional entries written by from_tree() and read back through Stream::from_read() differ at entry {first}: {} entries added, {} read; added (path, kind, bytes) = {:?}, read {:?}",
                 want.len(),
-                got.len()
+                got.len(),
+                want.get(first).map(|w| (String::from_utf8_lossy(&w.0).into_owned(), w.1, w.2.len())),
+                got.get(first).map(|w| (String::from_utf8_lossy(&w.0).into_owned(), w.1, w.2.len()))
             ),
             &op,
         );
@@ -1061,7 +1063,8 @@ fn probe_filter_large(cx: &mut Ctx) {
 }
 
 fn gen_extra(r: &mut Rng, idx: usize, thorough: bool) -> Extra {
-    let kind = *r.pick(&[1u8, 1, 1, 2, 3, 0]);
+    // every EntryKind a caller may add: blob, executable, link, tree and commit (gitlink)
+    let kind = *r.pick(&[1u8, 1, 1, 2, 2, 3, 3, 0, 4, 4]);
     let how = if kind == 0 {
         How::Memory
     } else {
@@ -1074,6 +1077,7 @@ fn gen_extra(r: &mut Rng, idx: usize, thorough: bool) -> Extra {
     let content = match (&how, kind) {
         (_, 0) => Content::Hex(vec![]),
         (_, 3) => Content::Hex(r.over(b"abc/", 6).into_iter().chain(*b"l").collect()),
+        (How::Memory, 4) => Content::Hex(r.over(b"xy", 3)),
         (How::Fifo(sizes), _) => {
             // at most ~30 hand-overs between the writer thread and the producer
             let total: usize = (0..30).map(|i| sizes[i % sizes.len()]).sum();
@@ -1129,6 +1133,30 @@ fn corpus(cx: &mut Ctx) {
             Extra { path: b"".to_vec(), kind: 1, id: id0, how: How::Memory, content: Content::Hex(b"empty path".to_vec()) },
         ],
     );
+    // every entry kind as an additional entry (mode byte 0..4 written by the producer, read back by the consumer),
+    // from memory and from a file, with null and non-null ids
+    for kind in 0u8..=4 {
+        for how in [How::Memory, How::File] {
+            if kind == 0 && matches!(how, How::File) {
+                continue;
+            }
+            let content = if kind == 0 { Content::Hex(vec![]) } else { Content::Hex(b"k".to_vec()) };
+            do_enc(cx, &[Extra { path: format!("kind{kind}").into_bytes(), kind, id: [kind; 20], how, content }]);
+        }
+    }
+    do_enc(
+        cx,
+        &(0u8..=4)
+            .rev()
+            .map(|kind| Extra {
+                path: format!("all/k{kind}").into_bytes(),
+                kind,
+                id: id0,
+                how: How::Memory,
+                content: if kind == 0 { Content::Hex(vec![]) } else { Content::Hex(vec![b'a' + kind]) },
+            })
+            .collect::<Vec<_>>(),
+    );
     // decoder: every chunk size class, consumer buffers of 1 / 65535 / 65536+, truncation at every header position
     let body = Content::Lcg(3, 70_000).bytes();
     for chunks in [vec![65535usize], vec![1], vec![65534, 1, 7], vec![4096]] {
@@ -1177,7 +1205,13 @@ fn corpus(cx: &mut Ctx) {
                 Item::Dir { name: b"a-b".to_vec(), children: vec![Item::File { name: b"f".to_vec(), exec: false, content: Content::Rep(0, 65535) }] },
                 Item::Gitlink { name: b"sub".to_vec() },
             ],
-            extras: vec![Extra { path: b"added".to_vec(), kind: 1, id: [0; 20], how: How::File, content: Content::Lcg(2, 131_071) }],
+            extras: vec![
+                Extra { path: b"added".to_vec(), kind: 1, id: [0; 20], how: How::File, content: Content::Lcg(2, 131_071) },
+                Extra { path: b"added-sub".to_vec(), kind: 4, id: [3; 20], how: How::Memory, content: Content::Hex(vec![]) },
+                Extra { path: b"added-dir".to_vec(), kind: 0, id: [0; 20], how: How::Memory, content: Content::Hex(vec![]) },
+                Extra { path: b"added-dir/x".to_vec(), kind: 2, id: [0; 20], how: How::Memory, content: Content::Hex(b"#!/bin/sh\n".to_vec()) },
+                Extra { path: b"added-dir/l".to_vec(), kind: 3, id: [0; 20], how: How::Memory, content: Content::Hex(b"x".to_vec()) },
+            ],
             sizes: vec![4096, 3, 70_000],
             with_attributes: false,
             identity_filter: false,
